@@ -1,7 +1,7 @@
 (* Wire.v -- one generic wire format (nested lists of integers) shared by the
    in-Coq evaluation path (gen/Cases_*.v) and the extracted OCaml driver, with
    decoders for the model's inputs and encoders for its outputs.  Definitions only. *)
-From NasimV Require Export Monitors Format.
+From NasimV Require Export Monitors Format Hops Multi Gen.
 
 Inductive sx := I (z : Z) | L (l : list sx).
 
@@ -215,5 +215,36 @@ Definition x_scenario (sc : scenario) : sx :=
      x_list (fun e => L [x_addr (fst e); I (snd e)]) (s_sens sc);
      x_opt x_nat (s_limit sc);
      L [x_nat (fst (s_bounds sc)); x_nat (snd (s_bounds sc))]].
+
+Definition d_mop (s : sx) : option mop :=
+  match s with
+  | L [I 0; i; sc; m; nm] =>
+      do i' <- d_nat i; do sc' <- d_scenario sc; do m' <- d_modes m; do nm' <- d_nat nm;
+      Some (MNew i' sc' m' nm')
+  | L [I 1; i] => do i' <- d_nat i; Some (MReinit i')
+  | L [I 2; i; o] => do i' <- d_nat i; do o' <- d_op o; Some (MOp i' o')
+  | _ => None end.
+
+Definition d_probspec (s : sx) : option probspec :=
+  match s with
+  | L [I 0; l] => do l' <- d_list d_Z l; Some (PFixed l')
+  | L [I 1] => Some PRandom
+  | L [I 2; l] => do l' <- d_list d_Z l; Some (PMixed l')
+  | _ => None end.
+
+Definition d_gparams (s : sx) : option gparams :=
+  match s with
+  | L [nh; nsrv; nos; nproc; nexp; npe; rs; ru; ec; ep; pc; pp; L [c1; c2; c3; c4]; uni;
+       thH; thP; thS; restr; rg; bv; dv; lim; bnd] =>
+      do nh' <- d_nat nh; do nsrv' <- d_nat nsrv; do nos' <- d_nat nos; do nproc' <- d_nat nproc;
+      do nexp' <- d_nat nexp; do npe' <- d_nat npe; do rs' <- d_Z rs; do ru' <- d_Z ru;
+      do ec' <- d_Z ec; do ep' <- d_probspec ep; do pc' <- d_Z pc; do pp' <- d_probspec pp;
+      do c1' <- d_Z c1; do c2' <- d_Z c2; do c3' <- d_Z c3; do c4' <- d_Z c4;
+      do uni' <- d_bool uni; do thH' <- d_list d_Z thH; do thP' <- d_list d_Z thP; do thS' <- d_opt d_Z thS;
+      do restr' <- d_nat restr; do rg' <- d_bool rg; do bv' <- d_Z bv; do dv' <- d_Z dv;
+      do lim' <- d_opt d_nat lim; do bnd' <- d_opt (d_pair d_nat d_nat) bnd;
+      Some (mkGP nh' nsrv' nos' nproc' nexp' npe' rs' ru' ec' ep' pc' pp' c1' c2' c3' c4' uni'
+                 thH' thP' thS' restr' rg' bv' dv' lim' bnd')
+  | _ => None end.
 
 Definition bad : sx := L [I (-1)].
